@@ -54,6 +54,7 @@ type Loader struct {
 	curTop *ssa.Function
 	immGlobals map[string]bool
 	allFuncs map[*ssa.Function]bool
+	assignRHS map[*ssa.Function]map[ast.Expr]string
 }
 
 type globSpec struct {
@@ -83,6 +84,7 @@ func load(repoDir string, patterns []string) (*Loader, error) {
 		anchors: map[*ssa.Function]map[token.Pos]string{}, repoDir: repoDir}
 	packages.Visit(pkgs, nil, func(p *packages.Package) { L.byPath[p.PkgPath] = p })
 	L.immGlobals = map[string]bool{}
+	L.assignRHS = map[*ssa.Function]map[ast.Expr]string{}
 	L.allFuncs = ssautil.AllFunctions(prog)
 	for fn := range L.allFuncs {
 		if fn.Pkg == nil && fn.Parent() == nil {
@@ -389,6 +391,40 @@ func (L *Loader) resolveType(pkg *types.Package, s string) (types.Type, error) {
 		}
 	}
 	return nil, fmt.Errorf("unknown type %q", s)
+}
+
+// assignedName: expr is the right-hand side of an assignment to a single plain identifier.
+func (L *Loader) assignedName(fn *ssa.Function, expr ast.Expr) (string, bool) {
+	m, ok := L.assignRHS[fn]
+	if !ok {
+		m = map[ast.Expr]string{}
+		L.assignRHS[fn] = m
+		if syn := fn.Syntax(); syn != nil {
+			ast.Inspect(syn, func(n ast.Node) bool {
+				switch x := n.(type) {
+				case *ast.FuncLit:
+					return n == syn
+				case *ast.AssignStmt:
+					if len(x.Lhs) == len(x.Rhs) {
+						for i := range x.Lhs {
+							if id, ok := x.Lhs[i].(*ast.Ident); ok && id.Name != "_" {
+								m[x.Rhs[i]] = id.Name
+							}
+						}
+					}
+				case *ast.ValueSpec:
+					if len(x.Names) == len(x.Values) {
+						for i := range x.Names {
+							m[x.Values[i]] = x.Names[i].Name
+						}
+					}
+				}
+				return true
+			})
+		}
+	}
+	n, ok := m[expr]
+	return n, ok
 }
 
 // srcAnchor: normalised source text of the expression an instruction comes from.
